@@ -10,7 +10,7 @@ RULE = ('Evaluation = one ampycloud call (CeiloChunk(...), find_slices/find_grou
         'bracketed by deep snapshots of the the caller frame (values, dtypes, index, columns, attrs), of the '
         'the caller nested parameter dict and of dynamic.AMPYCLOUD_PRMS, inside random histories of {construct with '
         'per-call prms, run a stage of some chunk, edit a global leaf / nested value / list element in place, edit '
-        'a leaf of some chunk snapshot, reset_prms}. A reference model keeps its own deep copies: after every '
+        'a leaf of some chunk snapshot, set_prms(YAML file), reset_prms}. A reference model keeps its own deep copies: after every '
         'operation each chunk prms must equal the model snapshot taken at its construction (plus the edits made '
         'to that snapshot), the global must equal the model global, no mutable object reachable from chunk.prms '
         'may be (by identity) reachable from the global, and the finished chunk must give the digest of an '
@@ -21,7 +21,7 @@ RULE = ('Evaluation = one ampycloud call (CeiloChunk(...), find_slices/find_grou
 ASSUMPTIONS = ['aliasing between chunk.prms and the the caller own dict (lists are assigned by reference) is not claimed by the property and not checked']
 REQUIRED = ['global_nested_edit_after_construction', 'global_list_element_edit', 'snapshot_edit', 'snapshot_list_element_edit',
             'unknown_keys', 'reset_between', 'frame_extra_columns_right_dtypes', 'frame_wrong_dtypes', 'frame_from_previous_chunk',
-            'final_digest_checked', 'prms_none', 'numpy_valued_prms']
+            'final_digest_checked', 'prms_none', 'numpy_valued_prms', 'set_prms_between', 'complete_section_reversed_range']
 SIZES = {'quick': 260, 'thorough': 5000}
 
 GLOBAL_EDITS = [
@@ -85,6 +85,11 @@ def percall(rng, sc, tags):
         p.setdefault('LOWESS', {})['bogus'] = 3
         if rng.uniform() < 0.5:
             p.setdefault('LAYERING_PRMS', {}).setdefault('gmm_kwargs', {})['nope'] = None
+    if rng.uniform() < 0.3:
+        # a complete sub-section, its range given as [max, min] (only min / max of it are ever used)
+        tags.add('complete_section_reversed_range')
+        p['GROUPING_PRMS'] = {'height_pad_perc': float(rng.choice([10, 40])), 'dt_scale': float(rng.choice([180, 90])),
+                              'height_scale_range': [float(rng.choice([500, 900])), float(rng.choice([100, 50]))]}
     if rng.uniform() < 0.3:
         p['MSA'] = None
     elif rng.uniform() < 0.25:
@@ -258,6 +263,24 @@ def check(desc):
                 tags.add('snapshot_edit')
                 if isinstance(path[-1], int):
                     tags.add('snapshot_list_element_edit')
+                dirty = True
+            elif choice < 0.965:
+                # parameters set from a YAML file (merged into the global dictionary)
+                import os
+                import tempfile
+                from ruamel.yaml import YAML
+                y = {'MIN_SEP_VALS': [float(rng.choice([200, 300])), float(rng.choice([900, 1100]))],
+                     'EXCLUDE_FOR_BASE_HEIGHT_CALC': [['zz'], []][int(rng.integers(2))],
+                     'GROUPING_PRMS': {'height_scale_range': [float(rng.choice([80, 120])), float(rng.choice([400, 600]))]},
+                     'LOWESS': {'frac': float(rng.choice([0.3, 0.5]))}}
+                with tempfile.TemporaryDirectory(prefix='c11_') as td:
+                    pth = os.path.join(td, 'prms.yml')
+                    with open(pth, 'w', encoding='utf-8') as fh:
+                        YAML(typ='safe').dump(y, fh)
+                    ampycloud.set_prms(pth)
+                model_merge(model_glob, y)
+                hist.append('set_prms(yaml: %s)' % sorted(y))
+                tags.add('set_prms_between')
                 dirty = True
             else:
                 ampycloud.reset_prms()
